@@ -424,6 +424,8 @@ class SrcModel:
                                     info["default"] = kw.value
                                 if kw.arg == "validator" and "optional(" in norm(kw.value, 1000):
                                     info["validator_optional"] = True
+                                if kw.arg == "converter":
+                                    info["converter"] = kw.value
                         else:
                             info["has_default"] = True
                             info["default"] = v
